@@ -156,6 +156,14 @@ def run(ctx):
     cs = cases(ctx)
     sx = [bridge.to_sx(e) for e in cs]
     answers = ctx.driver.call("agg", [[s] for s in sx])
+    # extraction cross-check: a sample of the driver's answers re-evaluated inside Coq
+    import core
+    pairs = []
+    for e, a in list(zip(cs, answers))[::max(1, len(cs) // 40)]:
+        if sum(1 for _ in ast.walk(e)) <= 25 and len(pairs) < 12:
+            rhs = "Some %s" % bridge.sx_to_coq(bridge.parse_sx(a[3:])) if a.startswith("OK ") else "None"
+            pairs.append(("agg %s" % bridge.to_coq(e), rhs))
+    core.coq_crosscheck(ctx, ID, "From FA.Base Require Import PyAst Value Traverse.\nFrom FA.Model Require Import Aggregate.", pairs)
     for e, s, ans in zip(cs, sx, answers):
         ctx.evaluations += 1
         d = ast.dump(e)
